@@ -68,9 +68,15 @@ func (zz *Decompressor) ParseTOC(r io.Reader) (toc *estargz.JTOC, tocDgst digest
 	defer zr.Close()
 	dgstr := digest.Canonical.Digester()
 	toc = new(estargz.JTOC)
-	if err := json.NewDecoder(io.TeeReader(zr, dgstr.Hash())).Decode(&toc); err != nil {
+	hr := io.TeeReader(zr, dgstr.Hash())
+	if err := json.NewDecoder(hr).Decode(&toc); err != nil {
 		return nil, "", fmt.Errorf("error decoding TOC JSON: %w", err)
 	}
+	// The digest covers the whole TOC file, including bytes that follow the JSON
+	// value (e.g. a trailing newline) which the decoder may not have consumed.
+	// Errors are ignored on purpose: the JSON value itself has been read, and a
+	// digest over fewer bytes simply fails the later comparison in VerifyTOC.
+	_, _ = io.Copy(io.Discard, hr)
 	return toc, dgstr.Digest(), nil
 }
 
